@@ -204,20 +204,37 @@ def r2_workspace(chk, fx):
         n2.startswith("bgpfu::query::RpslEvaluator::"))]
     chk.floor("C15/R2 evaluator bodies", len(bodies), 10)
     cu = contained(fx)
-    for n2, b in bodies:
+    # what runs while the connection is out of the evaluator: the closures the resolvers hand to with_connection, the Evaluator callbacks
+    # rpsl invokes from collect_result(s) (sink_error ..), and the library functions those call
+    inside_set = {n2 for n2, _ in bodies if ("::{closure#" in n2 and n2.startswith("<bgpfu::query::RpslEvaluator as rpsl::expr::eval::Resolver<"))
+                  or n2.startswith("<bgpfu::query::RpslEvaluator as rpsl::expr::eval::Evaluator<")}
+    work = list(inside_set)
+    lib = {n2: b for n2, b in fx.mir.items() if b.crate == "bgpfu" and "::tests::" not in n2}
+    while work:
+        n2 = work.pop()
+        for c in lib[n2].calls():
+            tgt = None if c.macro else (c.rdef if c.rdef in lib else c.defn if c.defn in lib else None)
+            for t2 in ([tgt] if tgt else []) + [x for x in lib if tgt and x.startswith(tgt + "::{closure")]:
+                if t2 not in inside_set and "with_connection" not in t2:
+                    inside_set.add(t2)
+                    work.append(t2)
+    extra = [(n2, lib[n2]) for n2 in sorted(inside_set) if n2 not in dict(bodies)]
+    for n2, b in bodies + extra:
         chk.analysed(n2)
         for c in b.calls():
             mac = (c.macro or "").split("::")[-1]
             explicit = c.is_fn("core::panicking::panic", "core::panicking::panic_fmt", "core::panicking::panic_explicit",
                                "core::panicking::unreachable_display", "std::rt::begin_panic") and mac in PANIC_MACROS
             unwrap = (not c.macro) and c.is_fn("Option::<T>::unwrap", "Option::<T>::expect", "Result::<T, E>::unwrap", "Result::<T, E>::expect")
-            if explicit or unwrap:
+            # std functions documented to panic on some input (String::truncate at a byte offset ..): only where a panic costs the connection
+            risky = (not c.macro) and n2 in inside_set and T.short(T.strip_generics(c.name()), 2) in PANICKY_STD and not unwrap
+            if explicit or unwrap or risky:
                 n += 1
-                what = "%s!()" % mac if explicit else T.short(c.name(), 2)
+                what = "%s!()" % mac if explicit else T.short(T.strip_generics(c.name()), 2)
                 # catch_unwind in Candidate::evaluate contains a panic — unless it strikes while the connection is out of the evaluator
                 # (inside the closure given to with_connection): the unwind skips the hand-back, and every later policy of the run
                 # fails with AcquireConnection
-                inside = "::{closure#" in n2 and n2.startswith("<bgpfu::query::RpslEvaluator as rpsl::expr::eval::Resolver<")
+                inside = n2 in inside_set
                 chk.instance("C15/R2", "%s in %s is reachable from the per-candidate evaluation%s" % (what, T.short(T.strip_generics(n2), 3),
                                                                                                       " (while the connection is taken out of the evaluator)" if inside else ""),
                              n2, c.loc(), holds=cu and not inside, key="C15/R2 %s %s" % (T.strip_generics(n2), what),
